@@ -170,4 +170,41 @@ def run (s : St) : List Op → St × List Event
 
 def init (delay : Nat) : St := ⟨delay, fun _ _ => false, fun _ => none⟩
 
+/-! ## which accounts an instruction is handed (account binding)
+
+The handlers read the delay from the SUPPLIED `TimelockConfig` account and the role from the SUPPLIED
+`Executor` account; Anchor's `has_one = store` on both ties them to the `store` account whose roles are
+checked, and the buffer's `has_one = executor` ties the buffer to the executor. `Supplied` records what the
+supplied accounts say; `own` is what the store's own accounts say. -/
+
+structure Supplied where
+  cfgStore : Nat      -- `timelock_config.store`
+  cfgDelay : Nat      -- `timelock_config.delay`
+  exeStore : Nat      -- `executor.store`
+  bufExeOwn : Bool    -- the buffer's recorded executor is the store's own executor of that role
+  deriving DecidableEq, Repr
+
+def own (me : Nat) (s : St) : Supplied := ⟨me, s.delay, me, true⟩
+
+/-- `execute_instruction` as a function of the supplied accounts: both `has_one = store` constraints, the
+buffer's `has_one = executor`, then the handler with the delay OF THE SUPPLIED CONFIG. -/
+def execWith (me : Nat) (s : St) (a : Supplied) (now : Int) (caller id r rr : Nat) : Option (St × Ix) :=
+  if a.cfgStore ≠ me then none else
+  if a.exeStore ≠ me then none else
+  if !a.bufExeOwn then none else
+  match exec { s with delay := a.cfgDelay } now caller id r rr with
+  | some (s', ix) => some ({ s' with delay := s.delay }, ix)
+  | none => none
+
+/-- `increase_delay`: `#[account(mut, has_one = store)] timelock_config`. -/
+def increaseDelayWith (me : Nat) (s : St) (a : Supplied) (caller delta : Nat) : Option St :=
+  if a.cfgStore ≠ me then none else increaseDelay s caller delta
+
+/-- `approve_instruction` / `cancel_instruction`: `executor` has `has_one = store`, buffer `has_one = executor`. -/
+def approveWith (me : Nat) (s : St) (a : Supplied) (now : Int) (caller id r : Nat) : Option St :=
+  if a.exeStore ≠ me then none else if !a.bufExeOwn then none else approve s now caller id r
+
+def cancelWith (me : Nat) (s : St) (a : Supplied) (caller id r rr : Nat) : Option St :=
+  if a.exeStore ≠ me then none else if !a.bufExeOwn then none else cancel s caller id r rr
+
 end Gmx.Tl
